@@ -32,6 +32,9 @@ type SymConn struct {
 	Deadlines     []time.Time
 	DeadlineArmed bool
 	Remote        net.Addr
+	// EOFWithData: the read that delivers the last bytes also reports io.EOF
+	// (allowed by io.Reader; crypto/tls does it when data and close_notify arrive together)
+	EOFWithData bool
 }
 
 func (c *SymConn) Read(p []byte) (int, error) {
@@ -53,6 +56,10 @@ func (c *SymConn) Read(p []byte) (int, error) {
 	n := vapi.Int("seg", 1, vapi.Min(len(p), len(c.D)-c.Pos))
 	copy(p[:n], c.D[c.Pos:c.Pos+n])
 	c.Pos += n
+	if c.EOFWithData && c.Pos == len(c.D) {
+		c.EOFs++
+		return n, io.EOF
+	}
 	return n, nil
 }
 
